@@ -1330,12 +1330,25 @@ func (w *responseWriter) reportEnd(end *responseEnd) {
 		w.respMeta.end = end
 		w.flushHeaders()
 	default:
+		// The handler did not get as far as WriteHeader, or its headers were
+		// not usable. What it may already have put into the header map to
+		// describe its own response (the headers of its protocol, an encoding,
+		// a length) does not describe the response that is written instead.
+		w.dropServerResponseHeaders()
 		w.respMeta = &responseMeta{end: end}
 		w.flushHeaders()
 	}
 	w.flusher.Flush()
 	// response is done
 	w.err = errFinalDataAlreadyWritten
+}
+
+func (w *responseWriter) dropServerResponseHeaders() {
+	headers := w.Header()
+	_, _, _ = w.op.server.protocol.extractProtocolResponseHeaders(http.StatusOK, headers)
+	headers.Del("Content-Length")
+	headers.Del("Content-Encoding")
+	headers.Del("Accept-Encoding")
 }
 
 func (w *responseWriter) flushHeaders() {
